@@ -9,13 +9,19 @@ package clusterinfo
 // Set once by New, never written afterwards (checked by an SSA sweep of the package).
 //@ immutable ClusterInfo.client, ClusterInfo.log
 
+// (round 4, area D) the HTTP address of a producer is a function of its broadcast address and HTTP port
+// (r4DJoinHostPort / r4DItoa: uninterpreted models of net.JoinHostPort / strconv.Itoa, .trusted/r4d.spec).
+//@ fn r4DHTTPAddr(p *Producer) string := r4DJoinHostPort(p.BroadcastAddress, r4DItoa(p.HTTPPort))
 //@ func (p *Producer) HTTPAddress() string
-//@   props C18
+//@   props C18 C17
 //@   requires p != nil
+//@   ensures[value] result == r4DHTTPAddr(p)
 //@   modifies
+//@ fn r4DTCPAddr(p *Producer) string := r4DJoinHostPort(p.BroadcastAddress, r4DItoa(p.TCPPort))
 //@ func (p *Producer) TCPAddress() string
 //@   props C18
 //@   requires p != nil
+//@   ensures[value] result == r4DTCPAddr(p)
 //@   modifies
 //@ func (p *Producer) Address() string
 //@   props C18
@@ -52,8 +58,21 @@ package clusterinfo
 // The per-lookupd worker of GetLookupdProducers (same model of the upstream answer).
 //@ func (c *ClusterInfo) GetLookupdProducers$1(addr string)
 //@   props C18
+//@   inst Sort.r4Dgps resp.Producers
 //@   requires c != nil && c.client != nil
 //@   requires[captured-map] producersByAddr != nil
 //@   lockassume forall k string :: {producersByAddr[k]} has(producersByAddr, k) ==> producersByAddr[k] != nil
 //@   loop 0
 //@     invariant[map] producersByAddr != nil && (forall k string :: {producersByAddr[k]} has(producersByAddr, k) ==> producersByAddr[k] != nil)
+// (round 4, area D) completeness of the merge: at the loop head every real (non-nil) node of the reply seen so far is registered in the
+// map under its TCP address (the key the nodes view de-duplicates by); the loop is never left before the last entry of the reply, so
+// at its exit - by whatever edge - EVERY real node of the reply is registered; keys registered before stay registered.
+// ASSUMED (decoder): the decoded reply's backing array is not the backing array of the merged list.
+//@     assume len(resp.Producers) == 0 || base(resp.Producers) != base(producers)
+//@     invariant[idx] rangeindex < len(resp.Producers)
+//@     invariant[reply-fixed] resp.Producers == atloop(resp.Producers)
+//@     invariant[registered-so-far] forall k int :: {resp.Producers[k]} 0 <= k && k <= rangeindex && k < len(resp.Producers) && resp.Producers[k] != nil ==> has(producersByAddr, r4DTCPAddr(resp.Producers[k]))
+//@     invariant[registered-kept] forall a string :: {has(producersByAddr, a)} atloop(has(producersByAddr, a)) ==> has(producersByAddr, a)
+//@     exit[all-merged] rangeindex + 1 >= len(resp.Producers)
+//@     exit[every-reply-node-registered] forall k int :: {resp.Producers[k]} 0 <= k && k < len(resp.Producers) && resp.Producers[k] != nil ==> has(producersByAddr, r4DTCPAddr(resp.Producers[k]))
+//@   ensures[no-post] r4DPostCount == old(r4DPostCount) && r4DPostFails == old(r4DPostFails) && r4DPosted == old(r4DPosted)
